@@ -1,7 +1,7 @@
 #!/bin/bash
 # Confirms a seeded change in its own scratch worktree: patch == worktree diff, suite passes with
-# it, demo fails with it and passes without it. Usage: seed_verify.sh C01
-id=$1; FEAT=${2:+--features $2}; W=/tmp/seed_$id; R=$W/repo; O=$W/out
+# it, demo fails with it and passes without it. Usage: seed_verify.sh C01 | seed_verify.sh /tmp/seed2_C01 [features]
+W=$1; case $W in /*) ;; *) W=/tmp/seed_$W;; esac; FEAT=${2:+--features $2}; R=$W/repo; O=$W/out
 export CARGO_TARGET_DIR=$W/target CARGO_NET_OFFLINE=true
 cd $R || exit 2
 if ! diff <(git diff) $O/patch.diff >/dev/null; then echo "NOTE: worktree diff differs from patch.diff"; git checkout -- . ; git apply $O/patch.diff || exit 2; fi
